@@ -31,6 +31,17 @@ def cases_for(tier, rng):
                     labs += [x, "flags"]
                 labs += ["(wait %s %s)" % (when, t), "flags"]
                 cases.append(("k%d" % n, "(case k%d status (labels flags %s))" % (n, " ".join(labs)), {"kind": "status", "when": when, "len": len(pre)}))
+    # to_stream consumed by a task that runs whenever it is woken - also in the middle of the producer's error()
+    for h in label_seqs(5 if tier == "quick" else 7, ["(n 1)", "c", "(e 7)", "poll"]):
+        if sum(1 for x in h if x in ("c", "(e 7)")) > 2:
+            continue
+        n += 1
+        cases.append(("k%d" % n, "(case k%d tostream_wake (labels %s))" % (n, " ".join(h)), {"kind": "tostream-woken", "len": len(h)}))
+    # complete_status above an operator that finishes early (take N), over a create() source: the status follows the source
+    for h in label_seqs(4, ["(n 1)", "c", "(e 7)"]):
+        for k in (0, 1, 2):
+            n += 1
+            cases.append(("k%d" % n, "(case k%d status2 %d (script %s))" % (n, k, " ".join(h)), {"kind": "status-above-take", "len": len(h)}))
     return cases
 
 
@@ -50,8 +61,9 @@ def run(tier, seed, replay=None):
     c["generator_distribution"] = hist
     c["exhaustive"] = True
     c["rule"] = ("to_future and to_stream over a subject: every sequence of <= %d labels over {next 1, next 2, complete, error, poll} with at most two "
-                 "terminals, the polls placed before, between and after the source's calls; observation: every Poll result; complete_status: the "
-                 "three flag queries after every call, and one thread in wait_for_end with the terminal issued before it starts, between its look at "
+                 "terminals, the polls placed before, between and after the source's calls; observation: every Poll result; to_stream consumed by a task that polls until Pending whenever it is woken, the wake-ups arriving "
+                 "synchronously inside the producer's calls (error() sends the error and then the end marker: the consumer runs in between); complete_status: the "
+                 "three flag queries after every call (also with take(0..2) below it over a create() source: the flags follow the source's terminal), and one thread in wait_for_end with the terminal issued before it starts, between its look at "
                  "the flag and its registering the waker (through the hook: the lost-wake-up window), or after it has gone to sleep; observation: "
                  "returned or hang (4 s watchdog)" % (6 if tier == "quick" else 8))
     rep.assumptions = ["collect is the single-input operator OCollect of C03", "the channel is an unbounded FIFO with a closed bit; AtomicWaker a one-slot register / wake (modelled, not verified)",
